@@ -384,6 +384,44 @@ func checkC19(c *Ctx, r *Report) {
 		} else {
 			o.Bad("URL.Target or URL.Digis does not derive from the upper-cased path")
 		}
+		// the target is exactly what follows the last '/' of the path (empty after a trailing slash):
+		// nothing that normalises the path - Base strips trailing slashes, Dir/Clean resolve dot
+		// segments - stands between the path and its split
+		o = r.Add("C19-dispatch", where, "target is the last path element, taken literally", c.pos(fn.Pos()))
+		normalises := func(v ssa.Value) bool {
+			call, ok := v.(*ssa.Call)
+			if !ok {
+				return false
+			}
+			switch callName(&call.Call) {
+			case "path.Base", "path.Dir", "path.Clean", "path/filepath.Base", "path/filepath.Dir", "path/filepath.Clean", "strings.TrimRight", "strings.TrimSuffix", "strings.Trim":
+				return true
+			}
+			return false
+		}
+		literal := func(v ssa.Value) bool {
+			return dependsOn(v, func(x ssa.Value) bool {
+				if ex, ok := x.(*ssa.Extract); ok {
+					if call, ok := ex.Tuple.(*ssa.Call); ok && (callName(&call.Call) == "path.Split" || callName(&call.Call) == "strings.Cut") {
+						return true
+					}
+				}
+				if call, ok := x.(*ssa.Call); ok && strings.HasPrefix(callName(&call.Call), "strings.LastIndex") {
+					return true
+				}
+				return false
+			})
+		}
+		switch {
+		case target == nil:
+			o.Bad("could not identify the value stored as URL.Target (unresolved)")
+		case dependsOn(target, normalises):
+			o.Bad("URL.Target goes through a call that normalises the path (Base/Dir/Clean/Trim...): a trailing slash is dropped, so 'ax25://port/DIGI/TARGET/' - empty target, must be refused - is accepted with the last digipeater as target, and dot segments swallow digipeaters")
+		case !literal(target):
+			o.Bad("URL.Target is not derived from a split of the path at its last '/' (unresolved)")
+		default:
+			o.OK("path.Split (or an equivalent cut at the last '/') of the path, with no normalisation")
+		}
 	}
 	r.NotCov = append(r.NotCov, "component fidelity for all tuples (escaping, empty parts, digi order, query parameter preservation)", "nil dereference of a nil *URL passed to DialURL", "behaviour of the registered dialers")
 }
